@@ -102,7 +102,15 @@ def run_impl(cases):
                "dctor": "ok" if dctor.get("k") == "ok" else "raised"}
         varobj = {v: S.Variable(v) for v in qv}
         for j, p in enumerate(c["pts"]):
-            pt = J.build_point(p)
+            try:
+                pt = J.build_point(p)
+            except Exception as exc:       # a legal coordinate name the Point constructor cannot take: every route fails with it
+                bad = {"k": "PyError", "t": type(exc).__name__}
+                row["at"].append(bad)
+                row["outs"].append([{"pa": bad, "ld": bad, "da": bad} for _ in qv])
+                row["svs"].append([{"k": "ill"} for _ in qv])
+                row["dv"].append(bad if len(vs) <= 1 else {"k": "na"})
+                continue
             row["at"].append(J.outcome_of(lambda: root.at(pt)))
             per_v, svs = [], []
             # reverse mode: ONE object answers for all variables
